@@ -346,8 +346,8 @@ func genbankFeatureParser(gb *GenBank, depth int) pars.Parser {
 
 func genbankContigParser(gb *GenBank, depth int) pars.Parser {
 	fieldNameParser := genbankFieldNameParser("CONTIG", depth)
-	untilColon := pars.Until(byte(':'))
-	l, m, r := pars.String("join("), pars.String(".."), pars.Byte(')')
+	untilColon := pars.Until(func(b byte) bool { return b == ':' || b == '\n' || b == '\r' })
+	l, c, m, r := pars.String("join("), pars.Byte(':'), pars.String(".."), pars.Byte(')')
 	return func(state *pars.State, result *pars.Result) error {
 		if err := fieldNameParser(state, result); err != nil {
 			return err
@@ -359,7 +359,9 @@ func genbankContigParser(gb *GenBank, depth int) pars.Parser {
 			return err
 		}
 		accession := string(result.Token)
-		pars.Skip(state, 1)
+		if err := c(state, pars.Void); err != nil {
+			return err
+		}
 		if err := pars.Int(state, result); err != nil {
 			return err
 		}
